@@ -549,7 +549,26 @@ func c08RowAccounting(r *core.Run, p *core.Prog) {
 			if core.CallName(info, c) == "pkg/types.Counters.Add" && len(c.Args) == 1 {
 				rx, _ := core.MethodCall(info, c)
 				l := "totals-add"
-				if ix := findIndex(rx); ix != nil {
+				ix := findIndex(rx)
+				if ix == nil {
+					// row := &rows[count]; row.Counters.Add(val)
+					root := rx
+					for {
+						if se, ok := ast.Unparen(root).(*ast.SelectorExpr); ok {
+							root = se.X
+							continue
+						}
+						break
+					}
+					d := resolveLocal(info, loop.Body, root)
+					if u, ok := ast.Unparen(d).(*ast.UnaryExpr); ok && u.Op == token.AND {
+						d = u.X
+					}
+					if d != root {
+						ix = findIndex(d)
+					}
+				}
+				if ix != nil {
 					l = "row-add"
 					rows = core.ObjOf(info, ix.X)
 					count = core.ObjOf(info, ix.Index)
